@@ -16,6 +16,9 @@ PROPERTY = {
 
 
 def check(run):
-    from checks.main import reflection_bounded
+    from checks.main import reflection_bounded, transforms_bounded
     reflection_bounded(run)
+    # A-TREE preservation of the seasoning transforms (what _yatiml_savorize
+    # hands on to recognition is a tree): bounded stand-in
+    transforms_bounded(run)
     run.verify_functions(RECOGNIZER + LOADER + STRIP + CONSTR)
